@@ -28,8 +28,8 @@ func init() {
 			"slack = 1 + X*(2ms/period_len) + (S+1)*dt/year*2e-18 + 1e-9*dt/step where X=I*S*dt/year (difference of two floors; ms truncation of linear period ends; 18-decimal truncation of I and of chained multiplier products)",
 			"year = 365 days as in the code's annualisation constant",
 		},
-		Cases:         func(t string) int { return tierN(t, 1500, 150000) },
-		MinNontrivial: func(t string) int { return tierN(t, 100, 10000) },
+		Cases:         func(t string) int { return tierN(t, 4500, 150000) },
+		MinNontrivial: func(t string) int { return tierN(t, 300, 10000) },
 		Run:           runC19,
 	})
 }
